@@ -21,7 +21,7 @@ TOL = 5      # quanta of 1e-6 of the scale of each observable
 
 def bounds(ctx):
     if ctx.quick:
-        return dict(MeshIds=list(range(1, 10)), Patterns=[5, 13], MaxFree=2)
+        return dict(MeshIds=list(range(1, 10)), Patterns=[13], MaxFree=2)
     return dict(MeshIds=list(range(1, 10)), Patterns=[0, 5, 13, 22, 26], MaxFree=4)
 
 
@@ -67,23 +67,26 @@ def run(ctx):
                          "runs": "<= 200 fixed steps of 2^-6, no screening, devices of ~110 sites"}
     # 1. the design
     r = ctx.model_check("FVOps", fvops.model_cfg(b["MeshIds"], b["Patterns"], b["MaxFree"], True, fvops.INV_MODEL_C04, emit="gauge"),
-                        name="FVOps[C04]", required_actions=["PickPattern", "PickLink", "FillLinks", "PickGauge"], timeout=3000)
+                        name="FVOps[C04]", timeout=3000)
     ctx.cov["exhaustive"] = True
+    # vacuity guard (TLC -coverage is slow, so on a small configuration; the main run is guarded by the number of exported instances)
+    ctx.model_check("FVOps", fvops.model_cfg([2, 8], [13], 1, True, fvops.INV_MODEL_C04), name="FVOps[C04, action coverage]",
+                    required_actions=["PickPattern", "PickLink", "FillLinks", "PickGauge"], count=False)
     ctx.model_check("FVOps", fvops.model_cfg([2, 5], [5], 2, True, ["WrongSignIsCovariant"]),
                     name="FVOps[sanity: psi -> psi exp(-i chi) must not be a symmetry]", expect_violation="WrongSignIsCovariant", count=False)
     # 2. spec -> code
     insts = fvops.export_instances(r)
-    if not insts:
-        raise core.MachineryFailure("C04: TLC exported no instance")
+    if len(insts) < 3 * 16 * len(b["MeshIds"]):
+        raise core.MachineryFailure(f"C04: TLC exported only {len(insts)} instances with a gauge generator")
     ctx.cov["instances_exported"] = len(insts)
     rnd = random.Random(ctx.seed)
     rnd.shuffle(insts)
     jobs = []
-    for i in insts[: (220 if ctx.quick else 5000)]:
+    for i in insts[: (170 if ctx.quick else 5000)]:
         jobs.append(("call", dict(module="harness.fvops", func="replay_exact",
                                   args=dict(mi=i["mi"], pat=i["pat"], geo=i["geo"], q=i["q"], mesh=i["mesh"], chi=i["chi"],
                                             heavy=False, seed=rnd.randint(0, 10 ** 6), label=i["name"]))))
-    for k in range(40 if ctx.quick else 400):
+    for k in range(30 if ctx.quick else 400):
         jobs.append(("call", dict(module="harness.fvops", func="replay_exact",
                                   args=fvops.random_instance(rnd, rnd.choice(sorted(fvops.TOPOLOGIES))))))
     jobs.append(("call", dict(module="harness.fvops", func="replay_exact", args=fvops.lattice_instance(rnd, 4, 3))))
@@ -112,15 +115,10 @@ def run(ctx):
         accepted |= {lo + n for n in fvops.validate(ctx, traces[lo:lo + 300], "C04", INV)}
     accf = fvops.validate(ctx, traces[nexact:], "C04/float", INV)
     accepted |= {nexact + n for n in accf}
-    if any(traces[n]["kind"] == "exact" for n in accepted):
-        fvops.canary_exact(ctx, traces, accepted, INV, "C04")
-    elif not ctx.violations:
-        raise core.MachineryFailure("C04: no exact trace accepted and no violation reported")
-    if accf:
-        fvops.canary_float(ctx, traces, accepted, INV, "C04", "covlap_covariant")
-        fvops.canary_float(ctx, traces, accepted, INV, "C04", "supercurrent_invariant")
-    elif not ctx.violations:
-        raise core.MachineryFailure("C04: no float trace accepted and no violation reported")
+    # canaries (binding self-test); when nothing was accepted the violations above are the verdict
+    if not ctx.violations and (not accf or not any(traces[n]["kind"] == "exact" for n in accepted)):
+        raise core.MachineryFailure("C04: nothing accepted and no violation reported")
+    fvops.canaries(ctx, traces, accepted, INV, "C04", ["covlap_covariant", "supercurrent_invariant"])
     for n in sorted(accepted)[:2]:
         t = traces[n]
         ctx.sample({"label": t["label"], "mi": t["mi"], "pat": t["pat"], "chi": next(e["c"] for e in t["ev"] if e["ev"] == "gauge"),
@@ -136,22 +134,22 @@ def run(ctx):
                                                                         "max_phase_difference_between_gauges")}}, limit=5)
     ctx.cov["run_pairs"] = [dict(pair=describe(a), worst_relative_difference=max(rr["info"]["worst_relative_difference"].values()),
                                  psi_moved=rr["info"]["psi_moved"]) for a, rr in zip(pairs, runs)]
-    acct = twin.validate_twin(ctx, tw, "C04/runs")
+    acct = fvops.validate_twin(ctx, tw, "C04/runs")
     # canaries: one observation off by more than the tolerance; and a pair that is NOT gauge equivalent (no phase factor in the seed)
+    ctl_trace = {"tol": TOL, "minruns": 2, "ev": ctl["ev"]}
     if acct:
         bad = copy.deepcopy(tw[sorted(acct)[0]])
         e = [x for x in bad["ev"] if x["run"] == "B" and x["key"].endswith("/supercurrent")][-1]
         e["q"][len(e["q"]) // 2] += TOL + 1
-        acc, _ = ctx.validate_traces("Twin", [{"tol": TOL, "minruns": 2, "ev": bad["ev"]}], twin.twin_cfg(), name="canary[C04/observation]", count=False)
-        if acc:
+        acc, _ = ctx.validate_traces("Twin", [{"tol": TOL, "minruns": 2, "ev": bad["ev"]}, ctl_trace], twin.twin_cfg(),
+                                     name="canaries[C04/runs: observation off by tol+1, pair that is not gauge equivalent]", count=False)
+        if 0 in acc:
             raise core.MachineryFailure("C04: corrupted twin observation accepted")
-        ctx.cov["canaries_rejected"] += 1
+        if 1 in acc:
+            raise core.MachineryFailure("C04: runs that are not gauge equivalent were accepted as related (observables too coarse)")
+        ctx.cov["canaries_rejected"] += 2
     elif not ctx.violations:
         raise core.MachineryFailure("C04: no run pair accepted and no violation reported")
-    acc, _ = ctx.validate_traces("Twin", [{"tol": TOL, "minruns": 2, "ev": ctl["ev"]}], twin.twin_cfg(), name="control[C04/not gauge equivalent]", count=False)
-    if acc:
-        raise core.MachineryFailure("C04: runs that are not gauge equivalent were accepted as related (observables too coarse)")
-    ctx.cov["canaries_rejected"] += 1
     ctx.cov["rule"] = ("operator level: one case = (mesh instance, link configuration, gauge function) replayed into the real MeshOperators and "
                        "validated by TLC, non-trivial = chi not identically 0; run level: one case = a pair of real runs in two gauges, "
                        "non-trivial = |psi| moved by > 1e-3, supercurrent > 1e-3 and >= 3 frames compared")
